@@ -52,7 +52,10 @@ SEP = [
     "wire`ifdef WIDE /* c */a`else /* d */b`endif ;\n", "x`ifndef Q/**/y`endif/**/z\n",
     "`ifdef A\n`else// c\nq`endif r\n", "`timescale 1ns/1ps// c\nx\n", "`celldefine/* c */x\n",
     "`define M(a) a/**/a\n`M(p)\n`M(/**/q)\n", "`define N x //tail\n`N y\n", "a`__LINE__/**/b\n",
-    "`include \"i.svh\"// c\nx/**/y\n", "a// c\r\nb\n", "a/* \n */b\n", "/**/a\n", "a/**/", "a// c",
+    "`include \"i.svh\"// c\nx/**/y\n", "a// c\r\nb\n",
+    # comments inside (multi-line) actual arguments
+    "`define ADD(a,b) a + b ;\n`ADD(1,\n  // second\n  2)\n", "`define ADD(a,b) a + b ;\n`ADD(1 /* one */,\n  2 // two\n)\nq\n",
+    "`define ID(x) x\nwire `ID(w // name\n) ;\n", "`define P(a,b,c) a b c\n`P(x,// c1\ny,// c2\nz)\n", "`define ID(x) x\n`ID(/* a */ p /* b */)\n", "a/* \n */b\n", "/**/a\n", "a/**/", "a// c",
 ]
 
 
@@ -68,7 +71,7 @@ def check(ctx):
     for _ in range(60 if q else 1500):
         parts = ["`define A 1\n", "`define F(x) x/**/x\n"] if r.random() < 0.6 else []
         for _ in range(r.randint(2, 9)):
-            parts.append(r.choice(["a", "b1", "wire", ";", "+", "`A", "`F(u)", "`ifdef A ", "`ifdef U ", "`else ", "`endif ",
+            parts.append(r.choice(["a", "b1", "wire", ";", "+", "`A", "`F(u)", "`F(v // c\n)", "`F(\n// d\nw)", "`F(/*e*/ z)", "`ifdef A ", "`ifdef U ", "`else ", "`endif ",
                                    "`celldefine\n", "`__LINE__"]) if parts and "`define" in parts[0] else r.choice(["a", "b1", ";", "+", "wire"]))
             parts.append(r.choice(["/**/", "/* c */", "// c\n", " ", "\n", "/*x*/ ", " //y\n", ""]))
         t = "".join(parts)
